@@ -16,6 +16,9 @@ ResOK(e, got) ==
                           /\ [n \in DOMAIN got.nodes |-> [d \in DOMAIN got.nodes[n] |-> NormEntry(got.nodes[n][d])]] = e.nodes
                           /\ [a \in DOMAIN got.back |-> [del |-> got.back[a].del, on |-> got.back[a].on,
                                                          for |-> ToSet(got.back[a].for), det |-> got.back[a].det]] = e.back
+                          /\ ("adms" \in DOMAIN e =>
+                                /\ "adms" \in DOMAIN got /\ got.other_type_absent
+                                /\ [d \in DOMAIN got.adms |-> [n \in DOMAIN got.adms[d] |-> NormEntry(got.adms[d][n])]] = e.adms)
 Init == tid \in 1..Len(Traces) /\ l = 1 /\ bad = 0
 Next == /\ l <= Len(Traces[tid].steps)
         /\ LET line == Traces[tid].steps[l]
